@@ -245,13 +245,13 @@ End Levels.
 
 (* ---- the hypotheses are satisfiable: an evaluated instance with two levels (a ring of four
    pairs), so that the aggregation step and a second local-moving phase are exercised ---- *)
-Definition lv_ex_graph : outcome (gstate Z Z) :=
-  new_from_nodes_and_edges Z.eqb Z.ltb
+Local Notation lv_ex_graph :=
+  (new_from_nodes_and_edges Z.eqb Z.ltb
     (map (fun z => mknode z (None : option Z)) [1; 2; 3; 4; 5; 6; 7; 8]%Z)
     [mkedge 1%Z 2%Z None None; mkedge 3%Z 4%Z None None; mkedge 5%Z 6%Z None None;
      mkedge 7%Z 8%Z None None; mkedge 2%Z 3%Z None None; mkedge 6%Z 7%Z None None;
      mkedge 1%Z 4%Z None None; mkedge 5%Z 8%Z None None; mkedge 4%Z 5%Z None None]
-    (mkspecs false DErr MCreate false true SErr).
+    (mkspecs false DErr MCreate false true SErr)) (only parsing).
 
 Definition lv_ex_perms : list (list nat) :=
   [[0]; [1; 0]; [2; 0; 1]; [3; 1; 0; 2]; [4; 2; 0; 3; 1]; [5; 3; 1; 0; 2; 4]; [6; 0; 3; 1; 5; 2; 4];
@@ -281,14 +281,9 @@ Proof.
   exists g. split; [reflexivity|].
   assert (W : WF Z.eqb Z.ltb g).
   { apply (WF_reachable Z.eqb Z.ltb Z.eqb_eq Zasym Ztot (mkspecs false DErr MCreate false true SErr)).
-    unfold lv_ex_graph in E. eapply new_from_reachable; [exact Z.eqb_eq | exact E]. }
+    eapply new_from_reachable; [exact Z.eqb_eq | exact E]. }
   split; [exact W|]. split; [exact R|].
   destruct (louvain_communities_of_partitions Z.eqb Z.ltb Z.eqb_eq Zasym Ztot _ _ g _ _ _ _ _ W R) as [Hc Hl].
   split; [exact Hc|]. split; [|exact Hl].
   apply (louvain_partitions_levels_ok Z.eqb Z.ltb Z.eqb_eq Zasym Ztot _ _ g _ _ _ _ _ W R).
 Qed.
-
-Print Assumptions louvain_partitions_levels_ok.
-Print Assumptions louvain_communities_level_ok.
-Print Assumptions louvain_communities_of_partitions.
-Print Assumptions louvain_levels_nonvacuous.
